@@ -348,54 +348,87 @@ def einsum_correspondence(chk, n_max: int):
 
 
 def template_hole_probe():
-    """Which argument holes of the `_…Implementation._numpycode` templates are NOT atomic?
+    """Is every argument hole of the `_…Implementation._numpycode` templates protected?
 
-    Each implementation class is instantiated DIRECTLY on independent symbols `H_<field>`; in the
-    generated source every hole is replaced textually by `u + v` and by `(u + v)`; if the two parse
-    differently the template does not protect that hole against an argument that prints as a sum.
-    Informational: the public classes only ever fill those holes through `evaluate()` (checked by
-    the compound-argument families/theorems); a hole listed here becomes wrong code only when a user
-    rewrites the arguments after `doit()` (e.g. `.expand()`), which is outside C08's observation
-    point `lambdify(expr.doit())`."""
-    import ast as pyast
+    Each implementation class is instantiated DIRECTLY, once with the symbol `W` in a field and once
+    with a compound expression in that field (sum, product, negated product, quotient, power — the
+    precedence classes of printed expressions), all other fields being independent symbols. The
+    template is right iff the code generated for the compound argument has the same VALUE (numpy, three
+    random draws) as the code generated for `W` with `W` replaced by the PARENTHESISED compound
+    expression. Returns
+    {class: {"unprotected": [(field, shape)], "fields_not_printed": [...]}}; an unprotected hole is a
+    broken correspondence (the public classes fill the holes through `evaluate()`, but any rewrite of
+    the unfolded object — expand(), xreplace, direct construction — reaches them)."""
     import re
 
     import sympy as sp
 
     from ampform.kinematics import lorentz as lz
 
-    n = lz.ArraySize(sp.Symbol("H_n"))
+    hn = sp.Symbol("H_n")
+    n = lz.ArraySize(hn)
     ones, zeros = lz._OnesArray(n), lz._ZerosArray(n)  # noqa: SLF001
     p = lz.FourMomentumSymbol("p", shape=[])
-    H = lambda f: sp.Symbol(f"H_{f}", real=True)  # noqa: E731
+    U, V, W = sp.symbols("U V W", real=True)
+    shapes = {"sum": (U + V, "(U + V)"), "product": (U * V, "(U*V)"), "negated product": (-U * V, "(-U*V)"),
+              "quotient": (U / V, "(U/V)"), "power": (U**V, "(U**V)"), "negated symbol": (-U, "(-U)")}
     instances = {
         "_BoostZMatrixImplementation": (lz._BoostZMatrixImplementation, ["beta", "gamma", "gamma_beta"],  # noqa: SLF001
-                                        lambda h: dict(beta=h["beta"], gamma=h["gamma"], gamma_beta=h["gamma_beta"], ones=ones, zeros=zeros)),
+                                        lambda h: dict(ones=ones, zeros=zeros, **h)),
         "_RotationYMatrixImplementation": (lz._RotationYMatrixImplementation, ["angle", "cos_angle", "sin_angle"],  # noqa: SLF001
-                                           lambda h: dict(angle=h["angle"], cos_angle=h["cos_angle"], sin_angle=h["sin_angle"], ones=ones, zeros=zeros)),
+                                           lambda h: dict(ones=ones, zeros=zeros, **h)),
         "_RotationZMatrixImplementation": (lz._RotationZMatrixImplementation, ["angle", "cos_angle", "sin_angle"],  # noqa: SLF001
-                                           lambda h: dict(angle=h["angle"], cos_angle=h["cos_angle"], sin_angle=h["sin_angle"], ones=ones, zeros=zeros)),
+                                           lambda h: dict(ones=ones, zeros=zeros, **h)),
         "_BoostMatrixImplementation": (lz._BoostMatrixImplementation,  # noqa: SLF001
                                        ["b00", "b01", "b02", "b03", "b11", "b12", "b13", "b22", "b23", "b33"],
                                        lambda h: dict(momentum=p, **h)),
     }
+
+    def body_of(cls, mk, h):
+        syms = [sp.Symbol(f"H_{f}", real=True) for f in h]
+        src = inspect.getsource(sp.lambdify([*syms, U, V, W, hn, p], cls(**mk(h)), "numpy", cse=False))
+        return src.split("return", 1)[1].strip()
+
+    import numpy as np
+
+    names = ["U", "V", "W", "H_n", *{f"H_{f}" for _, fs, _ in instances.values() for f in fs}]
+    rs = np.random.default_rng(8)
+    envs = []
+    for _ in range(3):
+        env = {"array": np.array, "ones": np.ones, "zeros": np.zeros, "len": len, "sqrt": np.sqrt, "sin": np.sin,
+               "cos": np.cos, "sum": np.sum, "einsum": np.einsum}
+        env.update({k: rs.uniform(0.3, 1.7, size=3) for k in sorted(names)})
+        env["p"] = rs.uniform(0.3, 1.7, size=(3, 4))
+        envs.append(env)
+
+    def same_value(code_a: str, code_b: str) -> bool:
+        """both expressions evaluated by numpy on the same random positive arrays (three draws)"""
+        for env in envs:
+            try:
+                with np.errstate(all="ignore"):
+                    a = np.asarray(eval(code_a, {"__builtins__": {}}, dict(env)), dtype=float)  # noqa: S307
+                    b = np.asarray(eval(code_b, {"__builtins__": {}}, dict(env)), dtype=float)  # noqa: S307
+            except Exception:  # noqa: BLE001
+                return False
+            if a.shape != b.shape or not np.allclose(a, b, rtol=1e-12, atol=0, equal_nan=False):
+                return False
+        return True
+
     out = {}
     for cname, (cls, fields, mk) in instances.items():
-        h = {f: H(f) for f in fields}
-        obj = cls(**mk(h))
-        src = inspect.getsource(sp.lambdify([*h.values(), sp.Symbol("H_n"), p], obj, "numpy", cse=False))
-        body = src.split("return", 1)[1].strip()
-        unsafe, unused = [], []
+        unprotected, unused = [], []
         for f in fields:
-            pat = re.compile(rf"\bH_{f}\b")
-            if not pat.search(body):
+            base = {g: sp.Symbol(f"H_{g}", real=True) for g in fields}
+            with_w = body_of(cls, mk, {**base, f: W})
+            if not re.search(r"\bW\b", with_w):
                 unused.append(f)
                 continue
-            a = pyast.dump(pyast.parse(pat.sub("u + v", body), mode="eval"))
-            b = pyast.dump(pyast.parse(pat.sub("(u + v)", body), mode="eval"))
-            if a != b:
-                unsafe.append(f)
-        out[cname] = {"holes_not_atomic": unsafe, "fields_not_printed": unused}
+            for shape, (expr, text) in shapes.items():
+                got = body_of(cls, mk, {**base, f: expr})
+                want = re.sub(r"\bW\b", text, with_w)
+                if not same_value(got, want):
+                    unprotected.append([f, shape])
+        out[cname] = {"unprotected": unprotected, "fields_not_printed": unused}
     return out
 
 
@@ -475,9 +508,20 @@ class C08Property:
                 chk.broken_correspondence("float-twin", "".join(traceback.format_exception_only(type(e), e))[-600:])
 
         try:
-            chk.info("template_hole_probe", template_hole_probe())
-        except Exception as e:  # noqa: BLE001  informational only
-            chk.info("template_hole_probe", {"error": repr(e)[:300]})
+            holes = template_hole_probe()
+            chk.info("template_hole_probe", holes)
+            chk.coverage["obligations"] += len(holes)
+            for cname, h in holes.items():
+                chk.count(("template-holes", cname))
+                if h["unprotected"]:
+                    chk.broken_correspondence("template-holes", {
+                        "class": cname, "unprotected_argument_holes": h["unprotected"],
+                        "meaning": "the _numpycode template splices this printed argument without protecting it: "
+                                   "an argument of the listed shape changes the meaning of the generated code"})
+                else:
+                    chk.coverage["discharged"] += 1
+        except Exception as e:  # noqa: BLE001
+            chk.broken_correspondence("template-holes", "".join(traceback.format_exception_only(type(e), e))[-600:])
         try:
             einsum_correspondence(chk, self.n_einsum[tier])
         except common.LeanRunError as e:
